@@ -176,6 +176,10 @@ class BandwidthLimitedStream:
             except RequestExceededException as e:
                 self._time_utils.sleep(e.retry_time)
         else:
+            # The transfer is over, so a consumption request that was
+            # scheduled for this stream will never be retried. Give its time
+            # slot back so that it does not delay all later requests.
+            self._leaky_bucket.cancel(self._request_token)
             raise self._transfer_coordinator.exception
 
     def signal_transferring(self):
@@ -275,6 +279,19 @@ class LeakyBucket:
                 )
             else:
                 return self._release_requested_amt(amt, time_now)
+
+    def cancel(self, request_token):
+        """Cancel a scheduled consumption request that will not be retried
+
+        :type request_token: RequestToken
+        :param request_token: The token of the consumption request. If no
+            consumption is scheduled for the token, this is a no-op.
+        """
+        with self._lock:
+            if self._consumption_scheduler.is_scheduled(request_token):
+                self._consumption_scheduler.process_scheduled_consumption(
+                    request_token
+                )
 
     def _projected_to_exceed_max_rate(self, amt, time_now):
         projected_rate = self._rate_tracker.get_projected_rate(amt, time_now)
